@@ -8,7 +8,7 @@
 //! and inputs feeding in-place operators or requested directly, captured
 //! values used again after the control-flow operator, zero-iteration loops.
 
-use onnxenc::{dtype, Attr, Graph, Model, Node, Tensor, TensorData, ValueInfo};
+use onnxenc::{dtype, Attr, Dim, Graph, Model, Node, Tensor, TensorData, ValueInfo};
 use serde::{Deserialize, Serialize};
 use simcore::rng::Rng;
 
@@ -865,6 +865,66 @@ impl<'r> Gen<'r> {
         }
     }
 
+    /// `Slice(Shape(x), a, b)`: a value the optimizer replaces by a constant when the sliced dimensions
+    /// of `x` are static, although `Shape(x)` as a whole is not. Emitted right before control-flow operators
+    /// so that branches and bodies are likely to capture it.
+    pub fn add_shape_slice(&mut self, s: &mut Scope) -> bool {
+        let x = match self.pick_val(s, |v| v.shape.len() >= 2 && v.name.starts_with("in")) {
+            Some(x) => x,
+            None => match self.pick_val(s, |v| v.shape.len() >= 2) {
+                Some(x) => x,
+                None => return false,
+            },
+        };
+        let rank = x.shape.len();
+        let sh = self.emit(s, "Shape", &[&x.name], Ty::I, vec![rank], vec![]);
+        let a = self.r.usize_below(rank);
+        let b = self.r.urange(a + 1, rank);
+        let (na, nb) = (self.scalar_i64(s, &[a as i64]), self.scalar_i64(s, &[b as i64]));
+        self.emit(s, "Slice", &[&sh.name, &na, &nb], Ty::I, vec![b - a], vec![]);
+        true
+    }
+
+    /// A temporary with 254..=300 uses: either that many separate consumers (in-place capable `Add(x, k)`
+    /// or `Sub(k, x)`, which never runs in place on `x`), or one variadic operator that names it that often.
+    pub fn add_fan_out(&mut self, s: &mut Scope) -> bool {
+        let Some(x) = self.pick_val(s, |v| v.ty != Ty::B && v.numel() > 0 && v.numel() <= 16 && v.name.starts_with('v')) else { return false };
+        let n = *self.r.pick(&[254usize, 255, 256, 257, 300]);
+        if self.r.chance(1, 3) {
+            let names: Vec<&str> = std::iter::repeat(x.name.as_str()).take(n).collect();
+            let op = if x.ty == Ty::F { *self.r.pick(&["Sum", "Max", "Mean"]) } else { "Concat" };
+            if op == "Concat" {
+                if x.shape.is_empty() {
+                    return false;
+                }
+                let mut shape = x.shape.clone();
+                shape[0] *= n;
+                self.emit(s, "Concat", &names, x.ty, shape, vec![("axis", Attr::Int(0))]);
+            } else {
+                self.emit(s, op, &names, x.ty, x.shape.clone(), vec![]);
+            }
+            // and one more use afterwards
+            self.emit(s, "Neg", &[&x.name], x.ty, x.shape.clone(), vec![]);
+            return true;
+        }
+        let k = self.add_const(s, x.ty, &[]);
+        let sub = self.r.bool();
+        let mut outs: Vec<Val> = Vec::new();
+        for _ in 0..n {
+            let o = if sub { self.emit(s, "Sub", &[&k.name, &x.name], x.ty, x.shape.clone(), vec![]) } else { self.emit(s, "Add", &[&x.name, &k.name], x.ty, x.shape.clone(), vec![]) };
+            outs.push(o);
+        }
+        // fold the consumers pairwise into one value so that all of them are needed
+        let mut acc = outs[0].clone();
+        for o in &outs[1..] {
+            acc = self.emit(s, "Max", &[&acc.name, &o.name], x.ty, x.shape.clone(), vec![]);
+        }
+        // the intermediate values are not interesting as requested outputs
+        let keep = acc.name.clone();
+        s.own.retain(|v| !outs.iter().any(|o| o.name == v.name) || v.name == keep);
+        true
+    }
+
     fn body_scope(&self, parent: &Scope) -> Scope {
         Scope { nodes: vec![], inits: vec![], vals: parent.vals.clone(), own: vec![], depth: parent.depth + 1 }
     }
@@ -1043,6 +1103,9 @@ pub fn generate_with(r: &mut Rng, control_flow: bool, int_only: bool) -> Program
     let mut cf_done = false;
     for i in 0..nops {
         if control_flow && !cf_done && (i == nops / 2 || i + 1 == nops) {
+            if g.r.chance(1, 5) {
+                g.add_shape_slice(&mut s);
+            }
             cf_done = if g.r.bool() { g.add_if(&mut s) } else { g.add_loop(&mut s) };
             continue;
         }
@@ -1052,8 +1115,13 @@ pub fn generate_with(r: &mut Rng, control_flow: bool, int_only: bool) -> Program
             }
         }
     }
-    let graph_inputs: Vec<ValueInfo> = g
-        .inputs
+    // Hazard (rare, it makes the program large): a value with hundreds of uses, so that use counts
+    // pass every width the executor might store them in (u8 saturates at 255).
+    if g.r.chance(1, 120) {
+        g.add_fan_out(&mut s);
+    }
+    let input_specs = g.inputs.clone();
+    let graph_inputs: Vec<ValueInfo> = input_specs
         .iter()
         .map(|i| {
             let t = match i.val.ty {
@@ -1061,7 +1129,25 @@ pub fn generate_with(r: &mut Rng, control_flow: bool, int_only: bool) -> Program
                 Ty::I => if i.scalar.is_some() { dtype::INT64 } else { dtype::INT32 },
                 Ty::B => dtype::BOOL,
             };
-            ValueInfo::new(&i.val.name, t, &i.val.shape.iter().map(|d| *d as i64).collect::<Vec<_>>())
+            let mut vi = ValueInfo::new(&i.val.name, t, &i.val.shape.iter().map(|d| *d as i64).collect::<Vec<_>>());
+            // declare some dimensions symbolic: the fed shapes are the same, but load-time shape inference
+            // and the optimizer then know only part of the shape
+            if i.val.shape.len() >= 2 && g.r.chance(1, 2) {
+                if let Some(dims) = vi.shape.as_mut() {
+                    let k = g.r.usize_below(dims.len());
+                    for (di, d) in dims.iter_mut().enumerate() {
+                        if di == k || g.r.chance(1, 4) {
+                            *d = Dim::Sym(format!("{}_d{di}", i.val.name));
+                        }
+                    }
+                    // keep at least one dimension static
+                    if dims.iter().all(|d| matches!(d, Dim::Sym(_))) {
+                        let j = (k + 1) % dims.len();
+                        dims[j] = Dim::Fixed(i.val.shape[j] as i64);
+                    }
+                }
+            }
+            vi
         })
         .collect();
     // Requested outputs are chosen here and *declared* as graph outputs: the
